@@ -43,6 +43,7 @@ type Obligation struct {
 	cand        *candidate
 	candCount   int
 	reached     bool
+	ghost       bool // stated with verifAssertGhost: not confirmable natively
 	mismatch    bool
 	trivialOnly bool
 }
@@ -484,15 +485,26 @@ func (e *Explorer) Entails(c *Term) bool {
 }
 
 // Assert checks an obligation on the current path.
-func (e *Explorer) Assert(id string, c *Term) {
+func (e *Explorer) Assert(id string, c *Term) { e.AssertKind(id, c, false) }
+
+// AssertKind: ghost = the condition reads ghost state of harness contracts (verifAssertGhost).
+func (e *Explorer) AssertKind(id string, c *Term, ghost bool) {
 	if e.concrete {
 		if !c.IsConst() {
 			panic("engine: symbolic value in concrete mode")
+		}
+		if ghost {
+			// contracts are off in concrete mode and natively: the value is not compared
+			e.trace = append(e.trace, TraceEvent{K: "assert-ghost", ID: id})
+			return
 		}
 		e.trace = append(e.trace, TraceEvent{K: "assert", ID: id, OK: c.V == 1})
 		return
 	}
 	o := e.getObl("assert", id)
+	if ghost {
+		o.ghost = true
+	}
 	idx := len(e.events)
 	if idx < len(e.script) {
 		if e.script[idx].kind != 'a' {
@@ -733,6 +745,16 @@ func (e *Explorer) finish(confirm func(o *Obligation) (confirmed bool, replayPat
 		o.Queries = map[string]int{"sat": o.stats.Sat, "unsat": o.stats.Unsat, "unknown": o.stats.Unknown}
 		o.SolverS = o.stats.Seconds
 		switch {
+		case o.cand != nil && o.ghost:
+			// the native twin runs the real functions: ghost state written by contracts does not
+			// exist there, so its evaluation of this condition means nothing. Never a VIOLATION,
+			// never a success.
+			o.Model = o.cand.model
+			o.Status = "inconclusive"
+			o.Reason = "counterexample found for an obligation over contract ghost state (verifAssertGhost); it cannot be confirmed by the native twin, which runs the real functions"
+			if len(o.cand.repls) > 0 {
+				o.Reason += " [contracts on the path: " + strings.Join(o.cand.repls, "; ") + "]"
+			}
 		case o.cand != nil:
 			ok, path, note := confirm(o)
 			o.Model = o.cand.model
@@ -832,7 +854,7 @@ func scanIDs(prog *ssa.Program, fn *ssa.Function) []preID {
 					continue
 				}
 				switch callee.Name() {
-				case "verifAssert", "verifReach":
+				case "verifAssert", "verifAssertGhost", "verifReach":
 					if k, ok := c.Args[0].(*ssa.Const); ok && k.Value != nil {
 						kind := "assert"
 						if callee.Name() == "verifReach" {
